@@ -6,6 +6,7 @@ import (
 )
 
 const risorPrefix = "github.com/risor-io/risor/"
+const risorRoot = "github.com/risor-io/risor."
 
 // funcName extracts the function from one "function line" of a Go stack trace
 // (`pkg.(*T).method(0x…, …)` or `pkg.f(...)`), without arguments; "" when the line is not one.
@@ -28,9 +29,14 @@ func funcName(line string) string {
 	return line[:i]
 }
 
-func short(fn string) string { return strings.TrimPrefix(fn, risorPrefix) }
+func short(fn string) string {
+	if strings.HasPrefix(fn, risorRoot) {
+		return "risor." + strings.TrimPrefix(fn, risorRoot)
+	}
+	return strings.TrimPrefix(fn, risorPrefix)
+}
 
-func isRisor(fn string) bool { return strings.HasPrefix(fn, risorPrefix) }
+func isRisor(fn string) bool { return strings.HasPrefix(fn, risorPrefix) || strings.HasPrefix(fn, risorRoot) }
 
 // panicSite returns the innermost risor function below the panic in a debug.Stack() dump taken in
 // the deferred function that recovered it (function name only: no line numbers, no addresses).
@@ -205,7 +211,25 @@ func recursionClass(rep []string) string {
 	case len(ris) > 0:
 		return "vm-call-recursion"
 	case len(other) > 0:
-		return strings.Join(collapse(other), "+") + "-recursion"
+		// no risor function repeats (the cycle runs inside a library): name the packages
+		seen := map[string]bool{}
+		var pkgs []string
+		for _, f := range other {
+			pkg := f
+			if i := strings.LastIndex(f, "/"); i >= 0 {
+				if j := strings.Index(f[i:], "."); j >= 0 {
+					pkg = f[:i+j]
+				}
+			} else if j := strings.Index(f, "."); j >= 0 {
+				pkg = f[:j]
+			}
+			if !seen[pkg] {
+				seen[pkg] = true
+				pkgs = append(pkgs, pkg)
+			}
+		}
+		sort.Strings(pkgs)
+		return strings.Join(pkgs, "+") + "-recursion"
 	}
 	return "no-repeating-frames"
 }
